@@ -5,6 +5,7 @@
 // destruction callbacks tell which elements were released in which op.
 #include "common.h"
 #include <algorithm>
+#include <map>
 #include <climits>
 
 namespace
@@ -29,7 +30,7 @@ struct C07 : Property
 	std::vector<std::string> probes() const override
 	{
 		return {"put.beyond_end_gap_fill", "put.overwrite_releases_old", "put.overwrite_gap_slot", "insert.shift", "insert.at_or_beyond_end", "del.range_with_gaps", "del.out_of_range_refused",
-		        "del.count_overflow_refused", "shrink.unsatisfiable_refused", "index.size_max_adjacent_refused", "index.capacity_refused", "shrink.then_grow", "sort.with_nulls", "bsearch.hit", "bsearch.miss",
+		        "del.count_overflow_refused", "shrink.unsatisfiable_refused", "sort.key_changed_in_place", "index.size_max_adjacent_refused", "index.capacity_refused", "shrink.then_grow", "sort.with_nulls", "bsearch.hit", "bsearch.miss",
 		        "fault.growth_failed_unchanged", "capacity0.first_add", "put.same_element_again"};
 	}
 
@@ -41,8 +42,12 @@ struct C07 : Property
 		static const int caps[] = {0, 1, 2, 32, 32, 5};
 		p.cfg["cap"] = r.chance(1, 6) ? (int64_t)r.range(0, 70) : caps[r.below(6)];
 		int nops = (int)r.range(3, 45);
+		// rarely: a vector that is already large (capacity policies may change with size), then far puts/inserts relative to THAT capacity
+		bool big = r.chance(1, 150);
+		if (big)
+			nops = (int)r.range(3, 10);
 		int64_t len = 0; // rough prediction to aim indices
-		std::vector<std::string> kinds = {"add", "put", "insert", "del", "shrink", "sort", "bsearch", "get", "reput"};
+		std::vector<std::string> kinds = {"add", "put", "insert", "del", "shrink", "sort", "bsearch", "get", "reput", "rekey"};
 		std::vector<std::string> en;
 		for (auto &k : kinds)
 			if (r.chance(3, 4))
@@ -54,6 +59,14 @@ struct C07 : Property
 			Op op;
 			op.kind = r.pick(en);
 			auto index_near = [&]() -> int64_t {
+				if (big && r.chance(2, 3))
+					switch (r.below(4))
+					{
+					case 0: return 65536 + (int64_t)r.below(6000);
+					case 1: return len + len / 2 + (int64_t)r.range(20, 60);
+					case 2: return 2 * len + (int64_t)r.below(40);
+					default: return std::max<int64_t>(0, len - (int64_t)r.below(3));
+					}
 				switch (r.below(9))
 				{
 				case 0: return 0;
@@ -69,7 +82,7 @@ struct C07 : Property
 			};
 			if (op.kind == "add")
 			{
-				op.a = {(int64_t)r.below(8)}; // 0 => null element
+				op.a = {(int64_t)r.below(8), (int64_t)r.below(2)}; // 0 => null element; second: through array_list_add() on json_object_get_array()
 				len++;
 			}
 			else if (op.kind == "put" || op.kind == "insert")
@@ -96,6 +109,8 @@ struct C07 : Property
 				if (idx >= 0 && cnt >= 0 && idx < len && idx + cnt <= len)
 					len -= cnt;
 			}
+			else if (op.kind == "rekey")
+				op.a = {(int64_t)r.below(1000), (int64_t)r.below(23)};
 			else if (op.kind == "shrink")
 				op.a = {r.chance(1, 6) ? (r.chance(1, 2) ? -(int64_t)r.range(1, 70) : ((int64_t)1 << 40) + (int64_t)r.below(9)) : (int64_t)r.pick(std::vector<int>{0, 0, 1, 3, 40})};
 			else if (op.kind == "bsearch")
@@ -217,7 +232,7 @@ struct C07 : Property
 					ctx.probe("capacity0.first_add");
 				if (shrunk)
 					ctx.probe("shrink.then_grow");
-				rc = LIB(json_object_array_add(arr, e.o));
+				rc = (op.arg(1) & 1) ? LIB(array_list_add(LIB(json_object_get_array(arr)), e.o)) : LIB(json_object_array_add(arr, e.o));
 				rel = "at-end";
 				if (rc == 0)
 				{
@@ -362,6 +377,20 @@ struct C07 : Property
 				shrunk = true;
 				}
 			}
+			else if (op.kind == "rekey")
+			{
+				// the caller changes the sort key of an element in place (it owns the array): a later sort must sort again
+				if (!model.empty())
+				{
+					Elem &e = model[(size_t)op.arg(0) % model.size()];
+					if (e.o)
+					{
+						LIB(json_object_set_int64(e.o, op.arg(1) % 23));
+						sorted = false;
+						ctx.probe("sort.key_changed_in_place");
+					}
+				}
+			}
 			else if (op.kind == "sort")
 			{
 				LIBV(json_object_array_sort(arr, cmp));
@@ -388,12 +417,15 @@ struct C07 : Property
 					ctx.fail("C07:sort-not-permutation", "op %zu: sort did not produce a permutation of the elements", oi);
 				// adopt the library's order (any order consistent with the comparator is acceptable)
 				std::vector<Elem> nm;
+				std::map<struct json_object *, int64_t> id_of;
+				for (auto &m : model)
+					if (m.o)
+						id_of[m.o] = m.id;
 				for (auto *g : a)
 				{
 					Elem e{g, 0};
-					for (auto &m : model)
-						if (m.o == g && g)
-							e.id = m.id;
+					if (g)
+						e.id = id_of[g];
 					nm.push_back(e);
 				}
 				model = nm;
